@@ -134,11 +134,15 @@ def _srv1_fields(s):
 def _srv1(a):
     apid, sub, seq, ver, ref, dest, has_vp = a[0]
     vp = _vp(a, 2) if has_vp else None
+    if (seq, ver, ref, dest) == (0, 0, 0, 0):     # the constructor's defaults
+        return s1.Service1Tm(apid, sub, bytes(a[1]), vp) if has_vp else s1.Service1Tm(apid, sub, bytes(a[1]))
     return s1.Service1Tm(apid=apid, subservice=sub, timestamp=bytes(a[1]), verif_params=vp, seq_count=seq,
                          packet_version=ver, space_time_ref=ref, destination_id=dest)
 
 
 def _params(l):
+    if l[1] == 1 and l[2] == 1:
+        return s1.UnpackParams(l[0])          # the documented defaults: one-octet step ID and error code
     return s1.UnpackParams(l[0], l[1], l[2])
 
 
@@ -146,6 +150,216 @@ def _tm(a):
     service, subservice, apid, seq, msgcnt, ref, dest, version = a[0]
     return PusTm(service=service, subservice=subservice, timestamp=bytes(a[1]), source_data=bytes(a[2]), apid=apid,
                  seq_count=seq, message_counter=msgcnt, space_time_ref=ref, destination_id=dest, packet_version=version)
+
+
+
+def _row(fn):
+    """one observation row of a history: [0] + values, or [1, exception class]"""
+    from harness import core
+    try:
+        return [0] + [int(x) for x in fn()]
+    except BaseException as e:  # noqa
+        if isinstance(e, (KeyboardInterrupt, SystemExit, MemoryError)):
+            raise
+        return [1, core.canon_code(core.classify_exception(e))]
+
+
+def _err_row(e):
+    from harness import core
+    if isinstance(e, (KeyboardInterrupt, SystemExit, MemoryError)):
+        raise e
+    return [1, core.canon_code(core.classify_exception(e))]
+
+
+def _snap(o, depth=0):
+    """caller-visible state of an object the caller handed in: its public attributes and public properties,
+    recursively (private caches a class may fill lazily are not part of it)"""
+    import enum
+    if isinstance(o, enum.Enum):
+        return ("enum", type(o).__name__, o.value)
+    if isinstance(o, (int, float, str, bool, type(None))):
+        return o
+    if isinstance(o, (bytes, bytearray, memoryview)):
+        return ("octets", bytes(o))
+    if depth > 6:
+        return ("deep",)
+    if isinstance(o, (list, tuple)):
+        return [_snap(x, depth + 1) for x in o]
+    d = getattr(o, "__dict__", None)
+    if d is None:
+        return ("obj", type(o).__name__)
+    out = [(k, _snap(v, depth + 1)) for k, v in sorted(d.items()) if not k.startswith("_")]
+    for name in sorted(dir(type(o))):
+        if name.startswith("_") or "crc" in name or not isinstance(getattr(type(o), name, None), property):
+            continue
+        try:
+            v = getattr(o, name)
+        except Exception as e:  # noqa
+            v = ("raises", type(e).__name__)
+        out.append((name, _snap(v, depth + 1)))
+    return (type(o).__name__, out)
+
+
+def _pfe_build(l):
+    """[kind, pfc, val]: 0 PacketFieldEnum, 1 PacketFieldU8/U16/U32 where one exists, 2 with_byte_size, 3 unpack(pack() + 1 octet)"""
+    kind, pfc, val = l
+    if kind == 1 and pfc in _HELPERS:
+        return _HELPERS[pfc](val)
+    if kind == 2:
+        return PacketFieldEnum.with_byte_size(pfc // 8, val)
+    if kind == 3:
+        return PacketFieldEnum.unpack(bytearray(PacketFieldEnum(pfc, val).pack()) + b"\x07", pfc)
+    return PacketFieldEnum(pfc, val)
+
+
+def _rq_build(kind, l):
+    v, t, s, ap, f, c = l
+    if kind == 1:
+        return RequestId.unpack(bytearray(_reqid(l).pack()) + b"\xa5")
+    if kind == 2:
+        return RequestId.from_sp_header(sp.SpacePacketHeader(packet_type=_ptype(t), apid=ap, seq_count=c, data_len=0,
+                                                             sec_header_flag=_b(s), seq_flags=_flags(f), ccsds_version=v))
+    if kind == 3:
+        return RequestId.empty()
+    return _reqid(l)
+
+
+def _rq_eq_fresh(r):
+    fresh = RequestId(sp.PacketId(r.tc_packet_id.ptype, r.tc_packet_id.sec_header_flag, r.tc_packet_id.apid),
+                      sp.PacketSeqCtrl(r.tc_psc.seq_flags, r.tc_psc.seq_count), r.ccsds_version)
+    u = RequestId.unpack(r.pack())
+    return [r == fresh, fresh == r, hash(r) == hash(fresh), r == u]
+
+
+def _rq_op(r, o):
+    k = o[0] if o else 7
+    v = o[1] if len(o) > 1 else 0
+    if k == 0:
+        r.ccsds_version = v
+    elif k == 1:
+        r.tc_packet_id.ptype = _ptype(v)
+    elif k == 2:
+        r.tc_packet_id.sec_header_flag = _b(v)
+    elif k == 3:
+        r.tc_packet_id.apid = v
+    elif k == 4:
+        r.tc_psc.seq_flags = _flags(v)
+    elif k == 5:
+        r.tc_psc.seq_count = v
+    if k == 6:
+        return _row(r.pack)
+    if k == 8:
+        return _row(lambda: _rq_eq_fresh(r))
+    return [0] + _rq_fields(r) + [r.as_u32(), hash(r)]
+
+
+def _pfe_op(f, o):
+    k = o[0] if o else 4
+    if k == 0:
+        f.val = o[1]
+    elif k == 1:
+        f.pfc = o[1]
+    if k == 2:
+        return _row(f.pack)
+    if k == 3:
+        return _row(lambda: [f.len()])
+    if k == 5:
+        def eq():
+            g = PacketFieldEnum(f.pfc, f.val)
+            return [f == g, g == f]
+        return _row(eq)
+    return [0, f.pfc, f.val]
+
+
+def _vp_op(v, o):
+    """one operation on a VerificationParams object; returns the rows it emits"""
+    k = o[0] if o else 9
+    try:
+        if k == 0:
+            v.req_id = _reqid(o[1:7])
+        elif k == 1:
+            v.step_id = _opt_pfe(o[1:])
+        elif k == 2:
+            v.failure_notice = _opt_fn(o[1:4], bytearray(o[4:]) if len(o) % 2 else bytes(o[4:]))
+        elif k == 3:
+            v.step_id.val = o[1]
+        elif k == 4:
+            v.failure_notice.data = bytes(o[1:])
+        elif k == 5:
+            v.failure_notice.code.val = o[1]
+    except BaseException as e:  # noqa
+        return [_err_row(e)]
+    if k == 6:
+        return [_row(v.pack)]
+    if k == 7:
+        return [_row(lambda: [v.len()])]
+    if k == 8:
+        def ver():
+            v.verify_against_subservice(o[1])
+            return []
+        return [_row(ver)]
+    return _vp_fields_raw(v.req_id, v.step_id, v.failure_notice)
+
+
+def _s1_build(a):
+    """a6 = [kind, ws, we]: 0 constructor, 1 Service1Tm.unpack(pack()), 2 from_tm(PusTm.unpack(pack())),
+    3 the create_*_tm helper of the subservice (the generator supplies arguments the helper can express)"""
+    kind, ws, we = a[6]
+    if kind == 3:
+        apid, k = a[0][0], a[0][1]
+        rq = a[2]
+        tc = PusTc(service=17, subservice=1, apid=rq[3], seq_count=rq[5])
+        step = _opt_pfe(a[3]); fn = _opt_fn(a[4], a[5]); ts = bytes(a[1])
+        return _create(k, apid, tc, step, fn, ts)
+    s = _srv1(a)
+    if kind == 0:
+        return s
+    raw = s.pack()
+    if kind == 1:
+        return s1.Service1Tm.unpack(bytes(raw), s1.UnpackParams(len(a[1]), ws, we))
+    return s1.Service1Tm.from_tm(PusTm.unpack(bytes(raw), len(a[1])), s1.UnpackParams(len(a[1]), ws, we))
+
+
+def _create(k, apid, tc, step, fn, ts):
+    if k in (1, 3, 7):
+        fnc = {1: s1.create_acceptance_success_tm, 3: s1.create_start_success_tm, 7: s1.create_completion_success_tm}[k]
+        return fnc(apid, tc, ts)
+    if k in (2, 4, 8):
+        fnc = {2: s1.create_acceptance_failure_tm, 4: s1.create_start_failure_tm, 8: s1.create_completion_failure_tm}[k]
+        return fnc(apid, tc, fn, ts)
+    if k == 5:
+        return s1.create_step_success_tm(apid, tc, step, ts)
+    return s1.create_step_failure_tm(apid, tc, step, fn, ts)
+
+
+def _s1_redecode(s, ws, we):
+    raw = s.pack()
+    return s1.Service1Tm.unpack(bytearray(raw) + b"\xa5\x5a", s1.UnpackParams(len(s.pus_tm.timestamp), ws, we))
+
+
+def _s1_op(cur, o):
+    s = cur[0]
+    k = o[0] if o else 1
+    try:
+        if k == 0:
+            return [[0] + list(s.pack())]
+        if k == 2:
+            return [[0] + _of_opt_pfe(s.error_code)]
+        if k == 3:
+            s.tc_req_id = _reqid(o[1:7])
+        elif k == 4:
+            s.pus_tm.space_packet_header.seq_count = o[1]
+        elif k == 5:
+            s.pus_tm.apid = o[1]
+        elif k == 6:
+            cur[0] = s = _s1_redecode(s, o[1], o[2])
+        elif k == 7:
+            u = _s1_redecode(s, o[1], o[2])
+            e1 = u == s; e2 = s == u
+            return [[0, int(e1), int(e2)]] + _srv1_fields(u)
+    except BaseException as e:  # noqa
+        return [_err_row(e)]
+    return [[0]] + _srv1_fields(s)
 
 
 def impl(op, a):
@@ -233,6 +447,69 @@ def impl(op, a):
         return [_of_opt_pfe(_srv1(a).error_code)]
     if op == 748:
         return [_of_opt_pfe(s1.Service1Tm.unpack(bytes(a[0]), _params(a[1])).error_code)]
+    if op == 718:
+        x = _pfe_build(a[0]); y = _pfe_build(a[1]); return [[int(x == y), int(y == x)]]
+    if op == 760:
+        r = _rq_build(a[1][0], a[0])
+        return [_rq_op(r, o) for o in a[2:]]
+    if op == 761:
+        f = _pfe_build(a[0])
+        return [_pfe_op(f, o) for o in a[1:]]
+    if op == 762:
+        v = _vp(a, 0)
+        rows = []
+        for o in a[4:]:
+            rows.extend(_vp_op(v, o))
+        return rows + [[1]]
+    if op == 763:
+        cur = [_s1_build(a)]
+        rows = []
+        for o in a[7:]:
+            rows.extend(_s1_op(cur, o))
+        return rows + [[1]]
+    if op == 764:
+        mode = a[4][0]
+        dec = (lambda d, p: s1.Service1Tm.unpack(d, p)) if mode == 0 else \
+              (lambda d, p: s1.Service1Tm.from_tm(PusTm.unpack(d, p.timestamp_len), p))
+        u = dec(bytes(a[0]), _params(a[1]))
+        before = _srv1_fields(u)
+        if mode == 2:
+            s1.Service1Tm(apid=1, subservice=s1.Subservice.TM_ACCEPTANCE_SUCCESS, timestamp=b"")     # default parameters in between
+        try:
+            w = dec(bytearray(a[2]), _params(a[3]))
+            e1 = u == w; e2 = w == u
+            tail = [[0, int(e1), int(e2)]] + _srv1_fields(w)
+        except BaseException as e:  # noqa
+            tail = [_err_row(e)]
+        after = _srv1_fields(u)
+        return after + [_row(lambda: _of_opt_pfe(u.error_code))] + tail + [[int(after == before)]]
+    if op == 765:
+        ts = bytearray(a[1]); data = bytearray(a[5])
+        apid, sub, seq, ver, ref, dest, has_vp = a[0]
+        vp = s1.VerificationParams(_reqid(a[2]), _opt_pfe(a[3]), _opt_fn(a[4], data))
+        keep = _snap(vp)
+        s = s1.Service1Tm(apid=apid, subservice=sub, timestamp=ts, verif_params=vp, seq_count=seq,
+                          packet_version=ver, space_time_ref=ref, destination_id=dest)
+        raw = s.pack()
+        buf = bytearray(raw) + bytes(a[7] if len(a) > 7 else [])
+        u = s1.Service1Tm.unpack(buf, s1.UnpackParams(len(a[1]), a[6][0], a[6][1]))
+        for i in range(len(buf)):
+            buf[i] ^= 0xFF
+        raw.extend(b"\x00")
+        e1 = u == s; e2 = s == u
+        q = u.pack()
+        unchanged = _snap(vp) == keep and bytes(ts) == bytes(a[1]) and bytes(data) == bytes(a[5])
+        return [[int(e1 and e2)], list(q)] + _srv1_fields(u) + [[int(unchanged)]]
+    if op == 766:
+        k, apid = a[0]
+        tc = _tc(a[1], a[2]); step = _opt_pfe(a[4]); fn = _opt_fn(a[5], a[6]); ts = bytes(a[3])
+        keep = (_snap(tc), _snap(step), _snap(fn))
+        s = _create(k, apid, tc, step, fn, ts)
+        raw = s.pack()
+        u = s1.Service1Tm.unpack(bytes(raw), s1.UnpackParams(len(a[3]), a[7][0], a[7][1]))
+        e1 = u == s; e2 = s == u
+        q = u.pack()
+        return [[int(e1 and e2)], list(q)] + _srv1_fields(u) + [[int((_snap(tc), _snap(step), _snap(fn)) == keep)]]
     raise RuntimeError("bad op")
 
 
@@ -574,6 +851,233 @@ def streams(tier, rng):
         cases.append((721, [pc.rbytes(rng, rng.randrange(12)), [rng.randrange(-1, 10)], [0]]))
         cases.append((702, [pc.rbytes(rng, rng.randrange(8))]))
     yield "garbage", "verdict", cases
+    yield from harden_streams(tier, rng)
+
+
+# ------------------------------------------------------------------ hardening: histories, re-inspection, sizes
+RQ_RANGES = [8, 2, 2, 2048, 4, 16384]
+RQ_BAD = [[8, 9, -1], [2], [2], [2048, 4096, -1, 65536], [4], [16384, 65536, -1]]
+
+
+def rand_rq_ops(rng, n, bad=0.08):
+    ops, last = [], None
+    for _ in range(n):
+        r = rng.random()
+        if r < 0.5:
+            k = rng.randrange(6)
+            if rng.random() < bad:
+                o = [k, rng.choice(RQ_BAD[k])]
+            else:
+                o = [k, rng.choice([0, 1, RQ_RANGES[k] - 1, RQ_RANGES[k] // 2]) if rng.random() < 0.4 else rng.randrange(RQ_RANGES[k])]
+            if last is not None and rng.random() < 0.1:
+                o = list(last)
+            last = o
+        elif r < 0.7:
+            o = [6]
+        elif r < 0.85:
+            o = [8]
+        else:
+            o = [7]
+        ops.append(o)
+    return ops
+
+
+def helper_report(rng, k=None, ws=None, we=None, tl=None, nd=None):
+    """arguments of a report that a create_*_tm helper can express (defaults everywhere, request ID of a PusTc)"""
+    a = rand_report(rng, k, ws, we, tl, nd)
+    a[0][2:6] = [0, 0, 0, 0]
+    a[2] = [0, 1, 1, a[2][3], 3, a[2][5]]
+    return a
+
+
+def rand_s1_ops(rng, a, n):
+    ws, we = a[6][1], a[6][2]
+    ops = []
+    for _ in range(n):
+        r = rng.random()
+        if r < 0.3:
+            o = [0]
+        elif r < 0.45:
+            o = [1]
+        elif r < 0.55:
+            o = [2]
+        elif r < 0.63:
+            o = [3] + rand_reqid(rng)
+        elif r < 0.73:
+            o = [4, pc.pick(rng, pc.BND14, 16384)]
+        elif r < 0.83:
+            o = [5, pc.pick(rng, pc.BND11, 2048)]
+        elif r < 0.91:
+            o = [6, ws, we]
+        else:
+            o = [7, ws, we]
+        ops.append(o)
+    return ops
+
+
+def harden_streams(tier, rng):
+    big = tier == "thorough"
+    # 16. request ID objects: attribute assignments (own and through the PacketId / PacketSeqCtrl they hold), all four
+    #     construction paths, pack / as_u32 / hash / == in between; every single bit of a request ID flipped by assignment
+    cases = []
+    for _ in range(12000 if big else 2500):
+        cases.append((760, [rand_reqid(rng), [rng.randrange(4)]] + rand_rq_ops(rng, rng.randrange(1, 11))))
+    for _ in range(40 if big else 10):
+        x = rand_reqid(rng)
+        for i, w in enumerate([3, 1, 1, 11, 2, 14]):
+            for b in range(w):
+                cases.append((760, [x, [rng.randrange(3)], [7], [i, x[i] ^ (1 << b)], [6], [8], [i, x[i]], [7], [8]]))
+    for k, m, step in ((3, 2048, 1), (5, 16384, 1 if big else 4)):
+        vals = list(range(0, m, step)) + list(range(m - 40, m))
+        for i in range(0, len(vals), 5):
+            ops = []
+            for v in vals[i:i + 5]:
+                ops += [[k, v], [6]]
+            cases.append((760, [rand_reqid(rng), [rng.randrange(4)]] + ops))
+    yield "reqid_histories", "exact", cases
+    # 17. request IDs differing in exactly one bit (all 32 positions), and identical ones: == and hash
+    cases = []
+    for _ in range(120 if big else 40):
+        x = rand_reqid(rng)
+        cases.append((705, [x, list(x)]))
+        for i, w in enumerate([3, 1, 1, 11, 2, 14]):
+            for b in range(w):
+                y = list(x); y[i] ^= 1 << b
+                cases.append((705, [x, y])); cases.append((705, [y, x]))
+    yield "exh_reqid_one_bit_apart", "exact", cases
+    # 18. PacketFieldEnum objects built in every way (base class, PacketFieldU8/U16/U32, with_byte_size, decoded),
+    #     attribute assignments, == across the ways of building (both directions)
+    cases = []
+    for pfc in (8, 16, 32, 64):
+        w = pfc // 8
+        for kx, ky in itertools.product(range(4), range(4)):
+            for v in bnd(w)[:6] + [rng.randrange(256 ** w)]:
+                cases.append((718, [[kx, pfc, v], [ky, pfc, v]]))
+                cases.append((718, [[kx, pfc, v], [ky, pfc, (v + 1) % 256 ** w]]))
+                p2 = rng.choice([p for p in (8, 16, 32, 64) if p != pfc])
+                cases.append((718, [[kx, pfc, v % 256], [ky, p2, v % 256]]))
+    for _ in range(6000 if big else 1200):
+        w = rng.choice(WIDTHS)
+        ops = []
+        for _ in range(rng.randrange(1, 11)):
+            r = rng.random()
+            if r < 0.35:
+                ops.append([0, rand_val(rng, w) if rng.random() < 0.9 else rng.choice([256 ** w, -1, 2 ** 64])])
+            elif r < 0.45:
+                w = rng.choice(WIDTHS) if rng.random() < 0.8 else rng.choice([0, 3, 5, 16])
+                ops.append([1, 8 * w if rng.random() < 0.9 else 8 * w + 4])
+                w = w if w in WIDTHS else 1
+            elif r < 0.7:
+                ops.append([2])
+            elif r < 0.8:
+                ops.append([3])
+            elif r < 0.9:
+                ops.append([5])
+            else:
+                ops.append([4])
+        w0 = rng.choice(WIDTHS)
+        cases.append((761, [[rng.randrange(4), 8 * w0, rand_val(rng, w0)]] + ops))
+    yield "pfe_kinds_and_histories", "exact", cases
+    # 19. VerificationParams objects: fields replaced / edited in place, pack / len / verify in between
+    cases = []
+    for _ in range(6000 if big else 1200):
+        a = rand_report(rng)
+        ops = []
+        for _ in range(rng.randrange(1, 11)):
+            r = rng.random()
+            w = rng.choice(WIDTHS)
+            if r < 0.1:
+                q = rand_reqid(rng)
+                if rng.random() < 0.15:
+                    q[rng.choice([3, 5])] = rng.choice([-1, 2 ** 16])     # refused by PacketId / PacketSeqCtrl: nothing changes
+                ops.append([0] + q)
+            elif r < 0.2:
+                ops.append([1] + ([1, 8 * w, rand_val(rng, w)] if rng.random() < 0.8 else [0, 0, 0]))
+            elif r < 0.3:
+                ops.append([2] + ([1, 8 * w, rand_val(rng, w)] + pc.rbytes(rng, rng.choice([0, 1, 5, 40])) if rng.random() < 0.8 else [0, 0, 0]))
+            elif r < 0.4:
+                ops.append([3, rng.randrange(256)])
+            elif r < 0.5:
+                ops.append([4] + pc.rbytes(rng, rng.choice([0, 1, 2, 9, 300])))
+            elif r < 0.58:
+                ops.append([5, rng.randrange(256)])
+            elif r < 0.78:
+                ops.append([6])
+            elif r < 0.86:
+                ops.append([7])
+            elif r < 0.94:
+                ops.append([8, rng.randrange(0, 10)])
+            else:
+                ops.append([9])
+        cases.append((762, a[2:6] + ops))
+    yield "verification_params_histories", "exact", cases
+    # 20. Service1Tm objects from every construction path (constructor, create_*_tm helper, unpack, from_tm):
+    #     pack repeatedly, edit the telemetry header through the public attributes, set the request ID, decode the
+    #     object's own output and go on with the decoded object
+    cases = []
+    for _ in range(5000 if big else 900):
+        kind = rng.randrange(4)
+        a = helper_report(rng) if kind == 3 else rand_report(rng)
+        a = a[:6] + [[kind] + a[6]]
+        cases.append((763, a + rand_s1_ops(rng, a, rng.randrange(1, 11))))
+    for k in range(1, 9):
+        for ws, we in itertools.product(WIDTHS, WIDTHS):
+            kind = rng.randrange(4)
+            a = helper_report(rng, k, ws, we) if kind == 3 else rand_report(rng, k, ws, we)
+            a = a[:6] + [[kind, ws, we]]
+            cases.append((763, a + [[0], [7, ws, we], [4, rng.randrange(16384)], [0], [6, ws, we], [2], [5, rng.randrange(2048)], [0], [7, ws, we], [1]]))
+    yield "service1_histories", "exact", cases
+    # 21. two reports decoded in a row (unpack / from_tm, a default-constructed report in between), the first one
+    #     inspected again afterwards; also when the second one is refused
+    cases = []
+    for _ in range(5000 if big else 1000):
+        a = rand_report(rng); b = rand_report(rng, tl=len(a[1]) if rng.random() < 0.5 else None)
+        pa, pb = report_octets(a), report_octets(b)
+        r = rng.random()
+        if r < 0.1:
+            pb, b = list(pa), a
+        elif r < 0.2:
+            pb = pb[:rng.randrange(len(pb))]
+        cases.append((764, [pa + pc.rbytes(rng, rng.randrange(3)), [len(a[1])] + a[6], pb, [len(b[1])] + b[6], [rng.randrange(3)]]))
+    for ka, kb in itertools.product(range(1, 9), range(1, 9)):
+        a = rand_report(rng, ka); b = rand_report(rng, kb)
+        cases.append((764, [report_octets(a), [len(a[1])] + a[6], report_octets(b), [len(b[1])] + b[6], [rng.randrange(3)]]))
+    yield "two_reports_in_a_row", "exact", cases
+    # 22. sizes: every failure-data length 0..1100, every timestamp length 0..300 and around the multiples of 256,
+    #     4 KiB; bytearray arguments (overwritten afterwards), decoded from a buffer with >= 512 foreign octets behind
+    cases = []
+    for nd in list(range(0, 1101)) + [4095, 4096, 4097]:
+        a = rand_report(rng, rng.choice((2, 4, 6, 8)), nd=nd, tl=rng.choice([0, 7]))
+        if nd % 4 == 0:
+            a[5] = [rng.choice([0, 0x80, 0xFF])] * nd
+        cases.append((765, a + ([pc.rbytes(rng, rng.choice([1, 512, 700]))] if nd % 3 == 0 else [])))
+    tls = sorted(set(range(0, 301)) | {m + d for m in (512, 768, 1024) for d in range(-8, 9)} | {1100})
+    for tl in tls:
+        a = rand_report(rng, tl=tl)
+        cases.append((765 if tl % 2 else 742, a))
+    yield "exh_report_sizes", "exact", cases
+    # 23. three limits at once: widest step ID and error code, timestamp, and failure data that make the packet
+    #     exactly as long as the length field allows / one octet more
+    cases = []
+    for ws, we, tl in ((8, 8, 16), (1, 1, 0), (2, 4, 7)):
+        for d in (-1, 0, 1):
+            nd = 65536 - 7 - tl - 4 - ws - we - 2 + d
+            a = rand_report(rng, 6, ws, we, tl=tl, nd=nd)
+            a[5] = [0xFF] * nd
+            cases.append((741, a[:6]))
+    yield "report_length_limit_triples", "exact", cases
+    # 24. every create_*_tm helper x widths: packed, decoded with matching widths, compared, re-packed; the
+    #     telecommand and parameter objects handed in are unchanged
+    cases = []
+    for rep in range(12 if big else 3):
+        for k in range(1, 9):
+            for ws, we in itertools.product(WIDTHS, WIDTHS):
+                step = [1, ws * 8, rand_val(rng, ws)] if k in (5, 6) else [0]
+                code = [1, we * 8, rand_val(rng, we)] if k % 2 == 0 else [0]
+                data = pc.rbytes(rng, rng.choice([0, 1, 5, 260])) if code[0] else []
+                tc = pc.rand_tc_args(rng, 10)
+                cases.append((766, [[k, pc.pick(rng, pc.BND11, 2048)], tc[0], tc[1], pc.rbytes(rng, rng.choice([0, 7, 16])), step, code, data, [ws, we]]))
+    yield "create_helpers_roundtrip", "exact", cases
 
 
 # ------------------------------------------------------------------ oracle
@@ -586,7 +1090,7 @@ def oracle_spec(case, ires):
     if op in (702, 703):
         b = a[0][:4]
         return [(753, [[int.from_bytes(bytes(b), "big")]])]
-    if op in (741, 742) and len(a) >= 6 and a[0][6]:
+    if op in (741, 742, 765) and len(a) >= 6 and a[0][6]:
         return [(752, [a[0][:6], a[1], a[2], _spec_opt(a[3]), _spec_opt(a[4]), a[5]])]
     return []
 
@@ -739,6 +1243,46 @@ def oracle(case, ires, sres):
         elif not err:
             return ("C15/PacketFieldEnum.pack/range", "value %d packed in %d octets: %s" % (val, w, ires))
         return None
+    if op == 718:
+        x, y = a
+        if err:
+            return ("C15/PacketFieldEnum/valid-refused", "%s -> %s" % (a, ires))
+        same = int(x[1:] == y[1:])
+        if ires[1] != [same, same]:
+            return ("C15/PacketFieldEnum.__eq__/construction-path",
+                    "fields built as kind %d and kind %d with (pfc, val) %s / %s: == answered %s (kinds: 0 base class, 1 PacketFieldU8/16/32, "
+                    "2 with_byte_size, 3 decoded)" % (x[0], y[0], x[1:], y[1:], ires[1]))
+        return None
+    if op == 760:
+        return oracle_rq_history(a, ires)
+    if op == 761:
+        return oracle_pfe_history(a, ires)
+    if op == 762:
+        return oracle_vp_history(a, ires)
+    if op == 763:
+        return oracle_s1_history(a, ires)
+    if op == 764:
+        return oracle_two_reports(a, ires, sres)
+    if op == 765:
+        if not err and ires[-1] != [1]:
+            return ("C15/Service1Tm/caller-object-modified",
+                    "building, packing or decoding the report changed the caller's VerificationParams / timestamp / failure data objects: %s" % (a[:6],))
+        r = oracle((742, a[:7]), ires if err else ires[:-1], sres)
+        if r and not err:
+            return (r[0], "(bytearray arguments, decoded from a bytearray that was overwritten afterwards) " + r[1])
+        return r
+    if op == 766:
+        k, apid = a[0]
+        service, subservice, tcapid, seq, source_id, ack = a[1]
+        if not (0 <= tcapid < 2048 and 0 <= seq < 16384):
+            return None
+        b = [[apid, k, 0, 0, 0, 0, 1], a[3], [0, 1, 1, tcapid, 3, seq], a[4], a[5], a[6], a[7]]
+        if not err and ires[-1] != [1]:
+            return ("C15/create_tm/caller-object-modified", "the helper changed the telecommand / step / failure notice it was given: %s" % (a,))
+        r = oracle((742, b), ires if err else ires[:-1], [])
+        if r:
+            return (r[0].replace("Service1Tm", "create_tm"), "(built by the create_*_tm helper of subservice %d) %s" % (k, r[1]))
+        return None
     if op in (732, 749):
         x, y = (a[0:4], a[4:8]) if op == 732 else (a[2:6], a[8:12])
         if not all(reqid_ok(v[0]) and (v[1][0] == 0 or pfe_ok(v[1])) and (v[2][0] == 0 or pfe_ok(v[2])) for v in (x, y)):
@@ -871,6 +1415,236 @@ def oracle(case, ires, sres):
         if err or ires[1] != exp:
             return ("C15/create_tm/source-data-layout", "%s -> %s expected %s" % (a, ires[:2], exp))
         return None
+    return None
+
+
+
+def oracle_rq_history(a, ires):
+    """a request ID object after attribute assignments: while its values are in range it reports them, packs to the first
+    four header octets they encode, as_u32 / hash are those 32 bits, and it equals (and hashes like) a fresh one"""
+    l, kind = list(a[0]), a[1][0]
+    if kind == 3:
+        l = [0, 0, 0, 0, 0, 0]
+    if not reqid_ok(l):
+        return None
+    if ires[0] != [0]:
+        return ("C15/RequestId/valid-refused", "construction path %d refused %s: %s" % (kind, a[0], ires))
+    cur = list(l)
+    for n, (o, row) in enumerate(zip(a[2:], ires[1:])):
+        k = o[0] if o else 7
+        if 0 <= k <= 5:
+            cur[k] = o[1]
+        if not reqid_ok(cur):
+            continue
+        what = "path %d, start %s, operations %s" % (kind, l, a[2:3 + n])
+        exp = reqid_layout(cur)
+        u32 = int.from_bytes(bytes(exp), "big")
+        if k == 6:
+            if row != [0] + exp:
+                return ("C15/RequestId.attributes/pack", "%s: pack() = %s, the header octets of %s are %s" % (what, row, cur, exp))
+        elif k == 8:
+            if row != [0, 1, 1, 1, 1]:
+                return ("C15/RequestId.attributes/equality", "%s: ==, ==, hash ==, == decoded answered %s for an ID with the same 32 bits" % (what, row))
+        elif row != [0] + cur + [u32, u32]:
+            return ("C15/RequestId.attributes/fields", "%s: object reports %s, expected %s" % (what, row, [0] + cur + [u32, u32]))
+    return None
+
+
+def oracle_pfe_history(a, ires):
+    kind, pfc, val = a[0]
+    if pfc not in (8, 16, 32, 64) or not 0 <= val < 2 ** pfc:
+        return None
+    if ires[0] != [0]:
+        return ("C15/PacketFieldEnum/valid-refused", "%s -> %s" % (a[0], ires))
+    for n, (o, row) in enumerate(zip(a[1:], ires[1:])):
+        k = o[0] if o else 4
+        if k == 0:
+            val = o[1]
+        elif k == 1:
+            pfc = o[1]
+        what = "field %s after %s" % (a[0], a[1:2 + n])
+        if pfc not in (8, 16, 32, 64):
+            if k in (2, 3) and row[0] != 1:
+                return ("C15/PacketFieldEnum.attributes/non-octet-width", "%s: width %d packed / measured: %s" % (what, pfc, row))
+            continue
+        w = pfc // 8
+        if k == 2:
+            if 0 <= val < 256 ** w:
+                if row != [0] + be(w, val):
+                    return ("C15/PacketFieldEnum.attributes/pack", "%s: pack() = %s for (pfc %d, val %d)" % (what, row, pfc, val))
+            elif row[0] != 1:
+                return ("C15/PacketFieldEnum.pack/range", "%s: value %d packed in %d octets: %s" % (what, val, w, row))
+        elif k == 3:
+            if row != [0, w]:
+                return ("C15/PacketFieldEnum.attributes/len", "%s: len() = %s" % (what, row))
+        elif k == 5:
+            if row != [0, 1, 1]:
+                return ("C15/PacketFieldEnum.__eq__/after-assignment", "%s: not equal to a fresh field (pfc %d, val %d): %s" % (what, pfc, val, row))
+        elif row != [0, pfc, val]:
+            return ("C15/PacketFieldEnum.attributes/fields", "%s: reports %s" % (what, row))
+    return None
+
+
+def oracle_vp_history(a, ires):
+    rq, step, code, data = [list(x) for x in a[:4]]
+    if not (reqid_ok(rq) and (step[0] == 0 or pfe_ok(step)) and (code[0] == 0 or pfe_ok(code))):
+        return None
+    if ires[0] != [0]:
+        return ("C15/VerificationParams/valid-refused", "%s -> %s" % (a[:4], ires))
+    rows = ires[1:]
+    pos = 0
+    for n, o in enumerate(a[4:]):
+        if pos >= len(rows):
+            return None
+        row = rows[pos]
+        k = o[0] if o else 9
+        what = "parameters %s after %s" % (a[:4], [x[:12] for x in a[4:5 + n]])
+        if k <= 5 and row[0] == 1 and len(row) == 2 and len(rows[pos:pos + 4]) >= 1 and (pos + 1 >= len(rows) or True):
+            # a refused assignment (bad request ID / field width, or no object to edit): nothing may have changed
+            refused_ok = (k == 0 and not reqid_ok(o[1:7])) or (k == 1 and o[1] and not o[2] in (8, 16, 32, 64)) or \
+                (k == 2 and o[1] and not o[2] in (8, 16, 32, 64)) or (k == 3 and not step[0]) or (k in (4, 5) and not code[0])
+            if refused_ok:
+                pos += 1
+                continue
+        if k == 0:
+            rq = list(o[1:7])
+        elif k == 1:
+            step = [1, o[2], o[3]] if o[1] else [0]
+        elif k == 2:
+            code = [1, o[2], o[3]] if o[1] else [0]; data = list(o[4:]) if o[1] else []
+        elif k == 3:
+            step = [1, step[1], o[1]]
+        elif k == 4:
+            data = list(o[1:])
+        elif k == 5:
+            code = [1, code[1], o[1]]
+        valid = reqid_ok(rq) and (step[0] == 0 or pfe_ok(step)) and (code[0] == 0 or pfe_ok(code))
+        if not valid:
+            return None
+        if k == 6:
+            exp = src_layout(rq, step, code, data)
+            if row != [0] + exp:
+                return ("C15/VerificationParams.attributes/pack", "%s: pack() = %s, expected request ID ++ step ++ code ++ data = %s" % (what, row[:40], exp[:40]))
+            pos += 1
+        elif k == 7:
+            if row != [0, len(src_layout(rq, step, code, data))]:
+                return ("C15/VerificationParams.attributes/len", "%s: len() = %s" % (what, row))
+            pos += 1
+        elif k == 8:
+            sub = o[1]
+            if 1 <= sub <= 8:
+                ok = shape_ok(sub, step, code)
+                if ok and row != [0]:
+                    return ("C15/VerificationParams.verify/refuses-matching", "%s: subservice %d -> %s" % (what, sub, row))
+                if not ok and row != [1, 7]:
+                    return ("C15/VerificationParams.verify/accepts-mismatch", "%s: subservice %d -> %s" % (what, sub, row))
+            pos += 1
+        else:
+            exp = [rq, step, code, ([1] + data) if code[0] else [0]]
+            if rows[pos:pos + 4] != exp:
+                return ("C15/VerificationParams.attributes/fields", "%s: object reports %s, expected %s" % (what, rows[pos:pos + 4], exp))
+            pos += 4
+    if rows and rows[-1] != [1]:
+        return ("C15/VerificationParams/caller-object-modified", "%s" % (a[:4],))
+    return None
+
+
+def oracle_s1_history(a, ires):
+    """a report object through pack / header edits / request-ID setter / decoding of its own output.  The source data are
+    those built at construction (the tc_req_id setter stores the ID without rebuilding them); apart from that every
+    pack() is the report layout for the current APID and sequence count, decoding it with matching widths gives the
+    same request ID / step / code / data, and (unless the request ID was overridden) an equal object."""
+    apid, k, seq, ver, ref, dest, has_vp = a[0]
+    kind, ws, we = a[6]
+    rq, step, fcode, data = a[2], a[3], a[4], a[5]
+    if not (0 <= apid < 2048 and 0 <= seq < 16384 and reqid_ok(rq) and shape_ok(k, step, fcode) and 1 <= k <= 8
+            and (step[0] == 0 or pfe_ok(step)) and (fcode[0] == 0 or pfe_ok(fcode))):
+        return None
+    if (step[0] and step[1] != 8 * ws) or (fcode[0] and fcode[1] != 8 * we):
+        return None
+    if ires[0] != [0]:
+        return ("C15/Service1Tm/valid-refused", "construction path %d refused a valid report: %s -> %s" % (kind, a[:6], ires))
+    src = src_layout(rq, step, fcode, data)
+    vp0 = [list(rq), list(step), list(fcode), ([1] + list(data)) if fcode[0] else [0]]
+    cur_rq = list(rq)
+    rows = ires[1:]
+    pos = 0
+    for n, o in enumerate(a[7:]):
+        if pos >= len(rows):
+            return None
+        row = rows[pos]
+        op = o[0] if o else 1
+        what = "path %d, report %s, operations %s" % (kind, a[:6], a[7:8 + n])
+        if op == 3 and not reqid_ok(o[1:7]):
+            return None
+        if row[0] == 1:
+            return ("C15/Service1Tm.history/valid-refused", "%s: raised %s" % (what, row))
+        if op == 3:
+            cur_rq = list(o[1:7])
+        elif op == 4:
+            seq = o[1]
+        elif op == 5:
+            apid = o[1]
+        exp = pc.tm_layout(1, k, apid, seq, 0, ref, dest, ver, a[1], src)
+        if op == 0:
+            if row != [0] + exp:
+                return ("C15/Service1Tm.history/pack", "%s: pack() = %s, expected %s" % (what, row[:48], exp[:48]))
+            pos += 1
+            continue
+        if op == 2:
+            if row != [0] + fcode:
+                return ("C15/Service1Tm.error_code", "%s: %s, expected %s" % (what, row, fcode))
+            pos += 1
+            continue
+        if op in (6, 7):
+            if o[1:3] != [ws, we]:
+                return None
+            f = rows[pos + 1:pos + 11]
+            if len(f) < 10 or f[3] != src or f[6:10] != vp0:
+                return ("C15/Service1Tm.unpack/own-output-fields", "%s: decoding the object's own output gave %s, the report was built from %s" % (what, f[6:10], vp0))
+            if op == 7 and cur_rq == rq and row != [0, 1, 1]:
+                return ("C15/Service1Tm.__eq__/decoded-not-equal", "%s: the decoded report does not compare equal to the object it was packed from: %s" % (what, row))
+            if op == 6:
+                cur_rq = list(rq)
+            pos += 11
+            continue
+        f = rows[pos + 1:pos + 11]
+        vp = [cur_rq] + vp0[1:]
+        if len(f) < 10 or f[3] != src or f[6:10] != vp or f[0][3] != apid or f[0][5] != seq or f[5] != [len(exp)]:
+            return ("C15/Service1Tm.history/fields", "%s: object reports header %s, source data %s, parameters %s; expected APID %d, count %d, %s" % (
+                what, f[0] if f else None, f[3][:24] if len(f) > 3 else None, f[6:10], apid, seq, vp))
+        pos += 11
+    return None
+
+
+def oracle_two_reports(a, ires, sres):
+    if ires[0] != [0]:
+        return None
+    rows = ires[1:]
+    ra = oracle((743, [a[0], a[1]]), [[0]] + rows[0:10], [])
+    if ra:
+        return ("C15/Service1Tm.unpack/first-report-after-second",
+                "a report decoded first and inspected after another one was decoded: " + ra[1])
+    if rows[-1] != [1]:
+        return ("C15/Service1Tm.unpack/shared-state", "decoding a second report changed the first one (modes: 0 unpack, 1 from_tm, 2 a default-"
+                "constructed report in between; mode %d): first %s" % (a[4][0], a[0][:32]))
+    b = a[0]
+    k = b[8]; tl, ws, we = a[1]
+    n = b[4] * 256 + b[5] + 7
+    src = b[13 + tl:n - 2]
+    expc = [0, 1, 8 * we, int.from_bytes(bytes(src[4 + (ws if k == 6 else 0):][:we]), "big")] if k % 2 == 0 else [0, 0]
+    if rows[10] != expc:
+        return ("C15/Service1Tm.error_code", "first of two reports: %s, source data %s" % (rows[10], src[:16]))
+    tail = rows[11:-1]
+    if tail and tail[0][0] == 0:
+        rb = oracle((743, [a[2], a[3]]), [[0]] + tail[1:11], [])
+        if rb:
+            return rb
+        if a[1] == a[3]:
+            n2 = a[2][4] * 256 + a[2][5] + 7
+            same = int(a[0][:n] == a[2][:n2])
+            if tail[0] != [0, same, same]:
+                return ("C15/Service1Tm.__eq__/two-decoded", "reports %s and %s decoded with the same parameters: == answered %s" % (a[0][:24], a[2][:24], tail[0]))
     return None
 
 
